@@ -13,6 +13,8 @@ dispatcher's get-or-create / purge (cache/dispatcher.go) that the Lean model was
   HTTPResponse.Bytes/FromBytes, httpCache.Bytes/FromBytes, (read)uint32/uint64 -> Codec.encodeResp/decodeResp/encodeEntry/decodeEntry
   HTTPResponse.shouldCompressed/GetRawBody/Compress/getBodyByAcceptEncoding/Fill -> Resp.shouldCompress/rawBody/compressStore/negotiate/fill
   Location.Match/mergeHeader/AddQuery, Locations.Get/Set -> Location.matches/Proxy.addAll/Proxy.addQuery/Location.get/sorted
+  server.Start/Close/Update, servers.Reset, convertConfig (server/server.go) -> the harness pipeline's middleware list; Reconfig.resetServers / effective
+  nowUnix (cache/), run (main.go), {redis,mongo,badger}Store.Get/Set/Delete (store/) -> the clock of Entry/Sys, the order watcher/first update, StoreMap (one partial map keyed by the exact key)
 `Pike.Facts.skel_*` are regenerated from the source on every run; `C01.skeleton_transcribed`
 requires them to be these lists.  Logging and verif hook calls are not part of a skeleton.
 -/
@@ -534,6 +536,206 @@ def disp_RemoveHTTPCache : List String := [
   "set err:=d.store.Delete(key)",
   "}"
 ]
+
+/-- server.Start: the middleware chain every request of a listening server runs through (the harness pipelines are a replica of exactly this list, in this order), then bind, then — only after a successful bind — the listening flag -/
+def server_Start : List String := [
+  "call s.mutex.Lock()",
+  "defer s.mutex.Unlock()",
+  "if s.listening {",
+  "return",
+  "}",
+  "set logger:=log.Default()",
+  "set e:=elton.New()",
+  "if s.logFormat!=\"\" {",
+  "call e.Use(middleware.NewLogger(middleware.LoggerConfig{DefaultFill:\"-\",OnLog:func(strstring,_*elton.Context){logger.Info(str)},Format:s.logFormat,}))",
+  "}",
+  "call e.Use(func(c*elton.Context)error{s.processing.Add(1)defers.processing.Dec()returnc.Next()})",
+  "call e.Use(middleware.NewDefaultError())",
+  "call e.Use(middleware.NewDefaultFresh())",
+  "call e.Use(NewResponder())",
+  "call e.Use(NewCache(s))",
+  "call e.Use(NewProxy(s))",
+  "call e.ALL(\"/*\",func(c*elton.Context)error{returnnil})",
+  "set srv:=&http.Server{Handler:e,}",
+  "set ln,err:=net.Listen(\"tcp\",s.addr)",
+  "if err!=nil {",
+  "return",
+  "}",
+  "set s.listening=true",
+  "set s.e=e",
+  "set s.ln=ln",
+  "set s.listenAddr=ln.Addr().String()",
+  "if !useGoRoutine {",
+  "return srv.Serve(ln)",
+  "}",
+  "go func(){err:=srv.Serve(ln)log.Default().Error(\"serverservefail\",zap.String(\"addr\",s.addr),zap.Error(err),)}()",
+  "return nil"]
+
+/-- server.Close: graceful close of the elton instance, then the listener itself is closed (http.Server was built in Start around the elton handler: elton's own Shutdown closes no listener) -/
+def server_Close : List String := [
+  "call s.mutex.Lock()",
+  "defer s.mutex.Unlock()",
+  "if !s.listening {",
+  "return nil",
+  "}",
+  "set s.listening=false",
+  "set err:=s.e.GracefulClose(10*time.Second)",
+  "if err!=nil {",
+  "return err",
+  "}",
+  "return s.ln.Close()"]
+
+/-- server.Update: the default for an unset min length, then all five settings replaced together under the write lock, the location list by a NEW slice -/
+def server_Update : List String := [
+  "set minLength:=opt.CompressMinLength",
+  "if minLength==0 {",
+  "set minLength=defaultCompressMinLength",
+  "}",
+  "call s.mutex.Lock()",
+  "defer s.mutex.Unlock()",
+  "set s.locations=opt.Locations",
+  "set s.cache=opt.Cache",
+  "set s.compress=opt.Compress",
+  "set s.compressMinLength=minLength",
+  "set s.compressContentTypeFilter=opt.CompressContentTypeFilter"]
+
+/-- servers.Reset: close the servers whose address is gone (each in a goroutine of its own), update the ones that stay, create the new ones -/
+def servers_Reset : List String := [
+  "set result:=util.MapDelete(ss.m,func(keystring)bool{exists:=falsefor_,opt:=rangeopts{ifopt.Addr==key{exists=truebreak}}return!exists})",
+  "range result {",
+  "set s,_:=item.(*server)",
+  "if s!=nil {",
+  "go func(){err:=s.Close()iferr!=nil{log.Default().Error(\"closeserverfail\",zap.String(\"addr\",s.addr),zap.Error(err),)}}()",
+  "}",
+  "}",
+  "range opts {",
+  "set value,ok:=ss.m.Load(opt.Addr)",
+  "if ok {",
+  "set s,_:=value.(*server)",
+  "if s!=nil {",
+  "call s.Update(opt)",
+  "}",
+  "} else {",
+  "call ss.m.Store(opt.Addr,NewServer(opt))",
+  "}",
+  "}"]
+
+/-- server.convertConfig: one option per configured server, the filter regexp declared per iteration -/
+def convertConfig : List String := [
+  "set opts:=make([]ServerOption,0)",
+  "range configs {",
+  "set minLength,_:=humanize.ParseBytes(item.CompressMinLength)",
+  "decl varreg*regexp.Regexp",
+  "if item.CompressContentTypeFilter!=\"\" {",
+  "set reg,_=regexp.Compile(item.CompressContentTypeFilter)",
+  "}",
+  "set opts=append(opts,ServerOption{LogFormat:item.LogFormat,Addr:item.Addr,Locations:item.Locations,Cache:item.Cache,Compress:item.Compress,CompressMinLength:int(minLength),CompressContentTypeFilter:reg,})",
+  "}",
+  "return opts"]
+
+/-- cache.nowUnix: the wall clock, read at every call (whole seconds); the verif hook only substitutes the harness clock -/
+def nowUnix : List String := [
+  "set t,ok:=verifNow()",
+  "if ok {",
+  "return t",
+  "}",
+  "return time.Now().Unix()"]
+
+/-- main.run: the configuration watcher is started BEFORE the first update(), so a change that arrives while the first update is still being applied (its synchronous health checks can take seconds) is not lost -/
+def run : List String := [
+  "set logger:=log.Default()",
+  "go config.Watch(func(){err:=update()iferr!=nil{logger.Error(\"updateconfigfail\",zap.Error(err),)godoAlarm(\"config\",err.Error())}else{logger.Info(\"updateconfigsuccess\")}})",
+  "set err:=update()",
+  "if err!=nil {",
+  "call panic(err)",
+  "}"]
+
+/-- store/redis.go: prefix + key -/
+def redisStore_getKey : List String := [
+  "return rs.prefix+string(key)"]
+
+/-- redis Get: under getKey(key); redis.Nil is ErrNotFound -/
+def redisStore_Get : List String := [
+  "set ctx,cancel:=context.WithTimeout(context.Background(),rs.timeout)",
+  "defer cancel()",
+  "set k:=rs.getKey(key)",
+  "set cmd:=rs.client.Get(ctx,k)",
+  "set data,err=cmd.Bytes()",
+  "if err!=nil {",
+  "if err==redis.Nil {",
+  "set err=ErrNotFound",
+  "}",
+  "return",
+  "}",
+  "return"]
+
+/-- redis Set: under getKey(key), with the ttl -/
+def redisStore_Set : List String := [
+  "set ctx,cancel:=context.WithTimeout(context.Background(),rs.timeout)",
+  "defer cancel()",
+  "set k:=rs.getKey(key)",
+  "set cmd:=rs.client.Set(ctx,k,data,ttl)",
+  "return cmd.Err()"]
+
+/-- redis Delete: under getKey(key) -/
+def redisStore_Delete : List String := [
+  "set ctx,cancel:=context.WithTimeout(context.Background(),rs.timeout)",
+  "defer cancel()",
+  "set k:=rs.getKey(key)",
+  "set cmd:=rs.client.Del(ctx,k)",
+  "return cmd.Err()"]
+
+/-- mongo Get: by Key = string(key); ErrNoDocuments is ErrNotFound -/
+def mongoStore_Get : List String := [
+  "set ctx,cancel:=context.WithTimeout(context.Background(),ms.timeout)",
+  "defer cancel()",
+  "set result:=mongoCache{}",
+  "set err=ms.collection().FindOne(ctx,&mongoCache{Key:string(key),}).Decode(&result)",
+  "if err!=nil {",
+  "if err==mongo.ErrNoDocuments {",
+  "set err=ErrNotFound",
+  "}",
+  "return",
+  "}",
+  "set data=result.Data",
+  "return"]
+
+/-- mongo Set: upsert by Key = string(key) -/
+def mongoStore_Set : List String := [
+  "set ctx,cancel:=context.WithTimeout(context.Background(),ms.timeout)",
+  "defer cancel()",
+  "set upsert:=true",
+  "set _,err=ms.collection().UpdateOne(ctx,&mongoCache{Key:string(key),},bson.M{\"$set\":&mongoCache{Key:string(key),Data:data,ExpiredAt:time.Now().Add(ttl),},},&options.UpdateOptions{Upsert:&upsert,})",
+  "if err!=nil {",
+  "return",
+  "}",
+  "return"]
+
+/-- mongo Delete: by Key = string(key) -/
+def mongoStore_Delete : List String := [
+  "set ctx,cancel:=context.WithTimeout(context.Background(),ms.timeout)",
+  "defer cancel()",
+  "set _,err=ms.collection().DeleteOne(ctx,&mongoCache{Key:string(key),})",
+  "if err!=nil {",
+  "return",
+  "}",
+  "return"]
+
+/-- badger Get: exactly key; ErrKeyNotFound is ErrNotFound; the value is copied out of the transaction -/
+def badgerStore_Get : List String := [
+  "set err=bs.db.View(func(txn*badger.Txn)error{item,err:=txn.Get(key)iferr!=nil{iferr==badger.ErrKeyNotFound{err=ErrNotFound}returnerr}returnitem.Value(func(val[]byte)error{data=append([]byte{},val...)returnnil})})",
+  "if err!=nil {",
+  "return",
+  "}",
+  "return"]
+
+/-- badger Set: exactly key, with the ttl -/
+def badgerStore_Set : List String := [
+  "return bs.db.Update(func(txn*badger.Txn)error{e:=badger.NewEntry(key,data).WithTTL(ttl)returntxn.SetEntry(e)})"]
+
+/-- badger Delete: exactly key (one key, not a prefix) -/
+def badgerStore_Delete : List String := [
+  "return bs.db.Update(func(txn*badger.Txn)error{returntxn.Delete(key)})"]
 
 end Spec.Skeleton
 end Pike
